@@ -518,13 +518,6 @@ func genInsert(r *Rng, sc *ATSchema, taken map[string]bool, o ATGenOpts) *ATStmt
 		n = 2 + r.Intn(2)
 	}
 	useArgs := r.Chance(60)
-	if n > 1 && useArgs {
-		if !o.AllowFindings {
-			useArgs = false
-		} else {
-			st.Classes = append(st.Classes, "multi_row_insert_with_arguments")
-		}
-	}
 	for i := 0; i < n; i++ {
 		var row []ATVal
 		for tries := 0; tries < 50; tries++ {
